@@ -622,9 +622,9 @@ func run(input string) string {
 
 func gen(rng *h.Rng, tier string, emit func(string)) {
 	st := h.Stats{}
-	n := 700
+	n := 1200
 	if tier == "thorough" {
-		n = 12000
+		n = 30000
 	}
 	niBytes, _ := nodeInfo().Encode()
 	nodeLen := 4 + len(niBytes)
